@@ -5,7 +5,7 @@ import json, os
 def _post(c):
     """F15 (transition-time skew) is replayed by the engine on every run and recorded as a known
     witness, not as a monitor failure, until it is listed in known_findings.txt; once listed it is
-    reported as a KNOWN-FINDING like any other (set VERIF_C06_F15=fail to see it as a violation)."""
+    reported as a KNOWN-FINDING like any other (set VERIF_C06_WITNESSES=fail to see it as a violation)."""
     import vlib
     p = os.path.join(c.out, "dkgrun.json")
     if not os.path.exists(p):
